@@ -187,6 +187,10 @@ where
     );
 
     let n = xs.len();
+    if N == 0 {
+        // batches without points: one empty polynomial per batch (grouping by 0 below would panic)
+        return vec![[E::ZERO; N]; n];
+    }
     let mut equations = vec![[E::ZERO; N]; n * N];
     let mut inverses = vec![E::ZERO; n * N];
 
